@@ -400,3 +400,63 @@ Proof.
 Qed.
 
 End C2.
+
+(* ---------- the character searches ---------- *)
+
+Section C3.
+Variable fold : Z -> Z.
+Variables s chars : bytes.
+Hypothesis Hws : wf s.
+Hypothesis Hcs : caseless fold s.
+
+(* IndexRune(s, r) for a code point that folding leaves alone: the byte-level search for its encoding *)
+Theorem caseless_index_rune r :
+  valid_rune r = true -> fold r = r -> index_rune fold s r = std_index s (encode r).
+Proof.
+  intros V Fr.
+  assert (Hke : key fold (encode r) = [fold r]).
+  { pose proof (decode_encode r [] V) as D. rewrite app_nil_r in D. unfold Spec.key.
+    assert (Hne : encode r <> []) by (unfold encode; repeat match goal with |- context [if ?c then _ else _] => destruct c end; discriminate).
+    rewrite (segs_full (encode r) Hne) by (rewrite D; reflexivity). rewrite D. reflexivity. }
+  assert (Hre : runes (encode r) = [r]).
+  { pose proof (decode_encode r [] V) as D. rewrite app_nil_r in D. unfold runes.
+    assert (Hne : encode r <> []) by (unfold encode; repeat match goal with |- context [if ?c then _ else _] => destruct c end; discriminate).
+    rewrite (segs_full (encode r) Hne) by (rewrite D; reflexivity). rewrite D. reflexivity. }
+  assert (Hce : caseless fold (encode r)).
+  { split.
+    - unfold valid_utf8. pose proof (decode_encode r [] V) as D. rewrite app_nil_r in D.
+      assert (Hne : encode r <> []) by (unfold encode; repeat match goal with |- context [if ?c then _ else _] => destruct c end; discriminate).
+      rewrite (segs_full (encode r) Hne) by (rewrite D; reflexivity). rewrite D. cbn [forallb]. rewrite andb_true_r.
+      unfold valid_seg. cbn [fst snd]. destruct (r =? RuneError) eqn:E; [|reflexivity].
+      assert (r = RuneError) by lia. subst r. reflexivity.
+    - intros x Hx. rewrite Hre in Hx. destruct Hx as [<-|[]]. exact Fr. }
+  assert (Hwe : wf (encode r)).
+  { unfold wf, encode, valid_rune, MaxRune in *. repeat match goal with |- context [if ?c then _ else _] => destruct c eqn:? end;
+      repeat constructor; lia. }
+  rewrite <- (caseless_index fold s (encode r) Hws Hwe Hcs Hce).
+  unfold index_rune, index. rewrite V, Hke. symmetry.
+  assert (G : forall l k0, find_first [fold r] l k0 = index_where (fun y => y =? fold r) l k0).
+  { induction l as [|y l IH]; intros k0; [reflexivity|]. cbn [find_first index_where prefixb].
+    rewrite andb_true_r, (Z.eqb_sym (fold r) y). destruct (y =? fold r); [reflexivity|apply IH]. }
+  rewrite G. reflexivity.
+Qed.
+
+(* IndexAny / LastIndexAny: folding plays no role *)
+Hypothesis Hcc : caseless fold chars.
+
+Lemma key_id l : key (fun x => x) l = runes l.
+Proof. rewrite key_runes_map. apply map_id. Qed.
+
+Theorem caseless_index_any : index_any fold s chars = index_any (fun x => x) s chars.
+Proof.
+  unfold index_any. pose proof (key_caseless fold s Hcs) as E1. pose proof (key_caseless fold chars Hcc) as E2.
+  pose proof (key_id s) as E3. pose proof (key_id chars) as E4. rewrite E1, E2, E3, E4. reflexivity.
+Qed.
+
+Theorem caseless_last_index_any : last_index_any fold s chars = last_index_any (fun x => x) s chars.
+Proof.
+  unfold last_index_any. pose proof (key_caseless fold s Hcs) as E1. pose proof (key_caseless fold chars Hcc) as E2.
+  pose proof (key_id s) as E3. pose proof (key_id chars) as E4. rewrite E1, E2, E3, E4. reflexivity.
+Qed.
+
+End C3.
